@@ -45,17 +45,36 @@ type vFollowGate struct {
 	arrivals map[string]int
 	parked   map[string]int
 	tokens   map[string]chan struct{}
+	// second gate "follower.response_received": only holds a follower whose next
+	// response the driver wants to lose (holdResp)
+	holdResp   map[string]bool
+	respParked map[string]int
+	respTokens map[string]chan struct{}
 }
 
 func newVFollowGate() *vFollowGate {
-	g := &vFollowGate{arrivals: map[string]int{}, parked: map[string]int{}, tokens: map[string]chan struct{}{}}
+	g := &vFollowGate{arrivals: map[string]int{}, parked: map[string]int{}, tokens: map[string]chan struct{}{},
+		holdResp: map[string]bool{}, respParked: map[string]int{}, respTokens: map[string]chan struct{}{}}
 	for _, id := range vKitIDs {
 		g.tokens[id] = make(chan struct{})
+		g.respTokens[id] = make(chan struct{})
 	}
 	return g
 }
 
 func (g *vFollowGate) hook(name, id string, stop <-chan struct{}) {
+	if name == "follower.response_received" {
+		g.mu.Lock()
+		hold, ch := g.holdResp[id], g.respTokens[id]
+		if hold {
+			g.respParked[id]++
+		}
+		g.mu.Unlock()
+		if hold && ch != nil {
+			<-ch
+		}
+		return
+	}
 	g.mu.Lock()
 	ch, ok := g.tokens[id]
 	if !ok {
@@ -550,6 +569,54 @@ func (k *vKit) fetch(f string) string {
 	return ""
 }
 
+// fetchLost: follower f sends its replication request, the leader handles it and answers,
+// and f dies after it received the response and before it stored anything.
+func (k *vKit) fetchLost(f string) string {
+	p := k.part(f)
+	if p == nil {
+		return "down"
+	}
+	g := k.gate
+	g.mu.Lock()
+	g.holdResp[f] = true
+	before := g.respParked[f]
+	g.mu.Unlock()
+	defer func() {
+		g.mu.Lock()
+		g.holdResp[f] = false
+		g.mu.Unlock()
+	}()
+	if !g.release(f, time.Second) {
+		return "not-parked"
+	}
+	deadline := time.Now().Add(3 * time.Second)
+	got := false
+	for time.Now().Before(deadline) {
+		g.mu.Lock()
+		got = g.respParked[f] > before
+		g.mu.Unlock()
+		if got {
+			break
+		}
+		time.Sleep(200 * time.Microsecond)
+	}
+	res := k.crash(f)
+	g.mu.Lock()
+	g.holdResp[f] = false
+	g.mu.Unlock()
+	if got {
+		// let the held handler run on: the partition is closed, it drops the response
+		select {
+		case g.respTokens[f] <- struct{}{}:
+		case <-time.After(time.Second):
+		}
+	} else if res == "" {
+		res = "no-response"
+	}
+	k.settle()
+	return res
+}
+
 func (k *vKit) upIDs() []string {
 	out := []string{}
 	for _, id := range k.ids {
@@ -968,6 +1035,9 @@ func (k *vKit) step(id int, step map[string]interface{}) vRepEvent {
 	case "Fetch":
 		args["f"] = vStr(step, "f")
 		res = k.fetch(vStr(step, "f"))
+	case "FetchLost":
+		args["f"] = vStr(step, "f")
+		res = k.fetchLost(vStr(step, "f"))
 	case "LagExpire":
 		args["f"] = vStr(step, "f")
 	case "Shrink":
